@@ -43,7 +43,14 @@ func lower(s string) string {
 
 // ReadOptions converts o to resource read options.
 func (o Opts) ReadOptions() []resource.ReadOption {
+	return o.readOptions(nil)
+}
+
+func (o Opts) readOptions(chk func(proto.Message) bool) []resource.ReadOption {
 	var ro []resource.ReadOption
+	if o.IncludeCheck && chk != nil {
+		ro = append(ro, resource.WithInclude(func(_ string, m proto.Message) bool { return chk(m) }))
+	}
 	if o.HasReadMask {
 		ro = append(ro, resource.WithReadMask(&fieldmaskpb.FieldMask{Paths: append([]string{}, o.ReadMask...)}))
 	}
@@ -157,7 +164,7 @@ func (m *Model) ExecCollection(c *resource.Collection, op Op) Result {
 	case Get:
 		res.Msg, res.Found = c.Get(op.ID, op.Opts.ReadOptions()...)
 	case List:
-		res.List = c.List(op.Opts.ReadOptions()...)
+		res.List = c.List(op.Opts.readOptions(m.Type.Check)...)
 	case Add:
 		res.written = proto.Clone(op.Val)
 		msg, err := c.Add(op.ID, res.written, m.WriteOptions(op.Opts, &res)...)
